@@ -776,6 +776,61 @@ def make_record(spec: Dict[str, Any]) -> np.ndarray:
     return x
 
 
+def read_history_twins(P: C.Part, spec: Dict[str, Any], x: np.ndarray, fs: float, bands: List[Any], rp: Dict[str, Any]) -> None:
+    """The RMS of a band is a property of the computed spectrum, not of what was looked at before: results computed from the SAME record with
+    the SAME options answer get_rms bit-identically whether it is the first thing asked of a fresh result or comes after every other public
+    attribute / to_dataframe() has been read (reads are queries; the first get_rms of the fresh twin is the reference)."""
+    import speckit
+
+    def fresh():
+        with warnings.catch_warnings():
+            warnings.simplefilter("ignore")
+            return speckit.compute_spectrum(x.copy(), fs, **spec["cfg"])
+
+    def ask(r) -> List[Any]:
+        out = []
+        for b in bands:
+            try:
+                with warnings.catch_warnings():
+                    warnings.simplefilter("ignore")
+                    out.append(r.get_rms(b))
+            except Exception as ex:
+                out.append(repr(ex))
+        return out
+    try:
+        ref = ask(fresh())
+        names = sorted(a for a in dir(fresh()) if not a.startswith("_") and a not in ("plot", "get_rms", "get_measurement", "to_dataframe"))
+    except Exception as ex:
+        P.notes.append(f"read-history twins: {ex!r}"[:160])
+        return
+    histories = [("sorted-attributes", names), ("reverse-attributes", names[::-1]), ("to_dataframe", ["to_dataframe()"]),
+                 ("window-sums", ["ENBW", "S2", "S12", "ps", "psd"]), ("errors-first", [a for a in names if a.endswith(("_dev", "_error"))])]
+    for hname, reads in histories:
+        P.cases += 1
+        P.hit("get_rms-after-" + hname)
+        try:
+            r = fresh()
+            with warnings.catch_warnings():
+                warnings.simplefilter("ignore")
+                for a in reads:
+                    try:
+                        r.to_dataframe() if a == "to_dataframe()" else getattr(r, a)
+                    except Exception:
+                        pass                      # an attribute that is not available for this result is not a C19 matter
+            got = ask(r)
+        except Exception as ex:
+            P.notes.append(f"read-history {hname}: {ex!r}"[:160])
+            continue
+        P.nontrivial.add(("read-history", hname, spec["N"], str(spec["cfg"])))
+        for b, v0, v1 in zip(bands, ref, got):
+            same = v0 == v1 or (isinstance(v0, float) and isinstance(v1, float) and math.isnan(v0) and math.isnan(v1))
+            if not same:
+                add_violation(P, f"get_rms({b}) = {v0!r} on a fresh result but {v1!r} on a result of the same record and options after reading "
+                                 f"{hname} ({', '.join(reads[:6])}{'…' if len(reads) > 6 else ''}) first", {"sub": "get_rms-read-history", "history": hname},
+                              dict(rp, band=b, history=hname, reads=reads))
+                break
+
+
 def result_eval(P: C.Part, spec: Dict[str, Any]) -> Optional[float]:
     """get_rms(band) == integral_rms(f, asd, sorted band) on a result computed from a real record; Parseval probe on the full band.
     Returns the Parseval deviation (for the report)."""
@@ -825,6 +880,7 @@ def result_eval(P: C.Part, spec: Dict[str, Any]) -> Optional[float]:
             ref, npts = ref_power(f, asd, sb)
             if not (abs(v * v - ref) <= rel_tol(len(f)) * ref + GUARD):
                 add_violation(P, f"get_rms({b})^2 = {v * v!r} but the trapezoid sum of asd^2 over the {npts} bins inside is {ref!r}", {"sub": "get_rms-spec"}, dict(rp, band=b))
+    read_history_twins(P, spec, x, fs, bands[:6], rp)
     # Parseval probe (support only; thresholds with >= 3x margin over the measured worst case)
     P.cases += 1
     P.hit("parseval-" + spec["noise"])
